@@ -247,6 +247,10 @@ fn c05(tier: Tier) -> Vec<SeqCfg> {
     let mut c = base("C05/ttl", "C05", a.clone(), d, tier);
     c.start_time = 100;
     let mut v = vec![c];
+    // a server that has been running for 2^32 - 2 seconds: the clock crosses 2^32 during the history
+    let mut late = base("C05/clock-crossing-2^32", "C05", a.clone(), if tier == Tier::Quick { 4 } else { 5 }, tier);
+    late.start_time = (1u64 << 32) - 2;
+    v.push(late);
     if tier == Tier::Thorough {
         let mut z = base("C05/ttl-from-zero", "C05", a, 6, tier);
         z.start_time = 0;
@@ -383,6 +387,8 @@ fn c14(tier: Tier) -> Vec<SeqCfg> {
         set(K2, &v40, 4, 0),
         set(K3, &v10, 5, 1),
         set(K3, b"7", 6, 0),
+        set(b"k4", &v10, 7, 0),
+        set(b"k5", &v10, 8, 0),
         append(K1, &v10, Zero),
         incr(K3, 1, 5, 0, Zero),
         delete(K1, Zero),
